@@ -112,8 +112,93 @@ let state_line hdr asec ksec psec ops =
     | _ -> failwith "bad op" in
   String.concat " ; " (List.map run (split_on ";" ops))
 
+(* ---------------- store script (correspondence of the node store, hasher.store's write set and the pruner round) ----------------
+   X hf df|- | op ; op ; ...
+     c name major minor pmajor.pminor|- path=blob ...   a real Trie.Commit: its hist puts; answer L<code of link_check>
+     p base target name:major.minor ...                  a pruner round on these roots; answer D <deduped puts> # <deleted hist keys>
+     r name major minor                                  read a root; answer T key=val~meta,... or Tfail
+   blob syntax: N | V<val>~<meta> | S<nibbles>(blob) | F(blob,...) | R<major>.<minor>; values are opaque strings *)
+let path_of_tok (s : string) : nat list =
+  if s = "-" then [] else List.init (String.length s) (fun i -> nat_of_int (if s.[i] = 't' then 16 else nib_of_char s.[i]))
+let tok_of_path (p : nat list) : string = if p = [] then "-" else string_of_path p
+
+let ver_of_tok (s : string) : n * n = let (a, b) = split1 '.' s in (n_of_hex a, n_of_hex b)
+let tok_of_ver ((a, b) : n * n) : string = hex_of_n a ^ "." ^ hex_of_n b
+
+let parse_blob (s : string) : string snode =
+  let pos = ref 0 in
+  let peek () = s.[!pos] in
+  let until (stop : char -> bool) =
+    let st = !pos in
+    while !pos < String.length s && not (stop s.[!pos]) do incr pos done;
+    String.sub s st (!pos - st) in
+  let rec node () : string snode =
+    let c = peek () in incr pos;
+    match c with
+    | 'N' -> SNil
+    | 'V' -> SValue (until (fun c -> c = ',' || c = ')'))
+    | 'R' -> SRef (ver_of_tok (until (fun c -> c = ',' || c = ')')))
+    | 'S' ->
+      let k = until (fun c -> c = '(') in
+      incr pos;
+      let ch = node () in
+      incr pos;                                             (* ')' *)
+      SShort (path_of_tok (if k = "" then "-" else k), ch)
+    | 'F' ->
+      incr pos;                                             (* '(' *)
+      let rec items acc =
+        let x = node () in
+        let d = peek () in incr pos;
+        if d = ',' then items (x :: acc) else List.rev (x :: acc) in
+      SFull (items [])
+    | _ -> failwith ("bad blob " ^ s) in
+  node ()
+
+let rec show_blob (b : string snode) : string =
+  match b with
+  | SNil -> "N"
+  | SValue v -> "V" ^ v
+  | SShort (k, c) -> "S" ^ string_of_path k ^ "(" ^ show_blob c ^ ")"
+  | SFull cs -> "F(" ^ String.concat "," (List.map show_blob cs) ^ ")"
+  | SRef v -> "R" ^ tok_of_ver v
+
+let store_line hdr ops =
+  let (hf, df) = match hdr with
+    | [h; d] -> (n_of_hex h, if d = "-" then None else Some (n_of_hex d)) | _ -> failwith "bad store header" in
+  let st = ref { hist = []; dedup = []; hf = hf; df = df } in
+  let fuel = nat_of_int 400 in
+  let seq = fun (a : string) (b : string) -> a = b in
+  let run = function
+    | "c" :: name :: ma :: mi :: parent :: entries ->
+      let v = (n_of_hex ma, n_of_hex mi) in
+      let es = List.map (fun tok -> let (p, b) = split1 '=' tok in (path_of_tok p, parse_blob b)) entries in
+      let par = if parent = "-" then None else Some (ver_of_tok parent) in
+      let code = link_check seq fuel !st (n_of_hex name) v es par in
+      st := commit !st (n_of_hex name) v es;
+      "L" ^ hex_of_n code
+    | "p" :: base :: target :: tries ->
+      let ts = List.map (fun tok -> let (nm, v) = split1 ':' tok in (n_of_hex nm, ver_of_tok v)) tries in
+      let b = n_of_hex base and t = n_of_hex target in
+      (match prune_round fuel !st ts b t with
+       | None -> "Dfail"
+       | Some (st', cps) ->
+         let del = deleted_keys !st b t in
+         let puts = List.concat (List.map (fun (nm, nodes) ->
+             List.map (fun ((p, v), blob) ->
+                 hex_of_n nm ^ "/" ^ (match dptn !st (fst v) with Some x -> hex_of_n x | None -> "-") ^ "/" ^ tok_of_path p ^ "=" ^ show_blob blob) nodes) cps) in
+         let dels = List.map (fun ((nm, p), v) -> hex_of_n nm ^ "/" ^ tok_of_path p ^ "/" ^ tok_of_ver v) del in
+         st := st';
+         String.concat " " (("D" :: puts) @ ("#" :: dels)))
+    | ["r"; name; ma; mi] ->
+      (match open_root fuel !st (n_of_hex name) (n_of_hex ma, n_of_hex mi) with
+       | None -> "Tfail"
+       | Some t -> "T " ^ String.concat "," (List.map (fun (k, v) -> string_of_path k ^ "=" ^ v) (leaves t)))
+    | _ -> failwith "bad store op" in
+  String.concat " ; " (List.map run (split_on ";" ops))
+
 let handle line =
   match split_on "|" (split_ws line) with
+  | [("X" :: hdr); ops] -> store_line hdr ops
   | ["T"] :: rest -> trie_line (List.concat rest)
   | [("S" :: hdr); asec; ksec; psec; ops] -> state_line hdr asec ksec psec ops
   | _ -> failwith "bad line"
